@@ -35,4 +35,20 @@ PROPS = {
         assumptions=['slice lengths are <= isize::MAX (Rust allocation rule), stated as a precondition',
                      'arrayvec::ArrayVec behaves as its stand-in contract states'],
     ),
+    'C15': dict(
+        level='proof',
+        level_text='Verus proves for every octet string and every read position (no bound) that each Reader operation - header accessors, '
+                   'read_question, skip_question, read_rr, skip_rr, peek_rr, PeekRr::{owner, rr_type, class, ttl, rdlength, message_to_rr, skip, parse}, '
+                   'mark/rewind, TryFrom - is free of index/slice/arith/unwrap panics, preserves the reader invariant 12 <= cursor <= len, leaves the '
+                   'cursor unchanged when it returns Err, and on success returns exactly the fields of an RFC 1035 4.1 reference decoder '
+                   '(question_at / rr_at / rr_skip_at over the C14 name decoder), advancing the cursor to the reference end.',
+        level_note='Trusted: Verus/Z3; prelude stand-ins (be-bytes shims, slice->array shim, Cow/Rdata opaque types); the contract of Rdata::read is '
+                   'ASSUMED here as a callee contract (rdata_read_spec; decided by the RDATA units of C18); name decoding is used through the '
+                   'contracts proved in unit name_wire (run as part of this check). rewind() keeps its documented precondition (a mark is set).',
+        verus=[dict(unit='reader', which='all'), dict(unit='name_wire', which='all'), dict(unit='dns_types', which='all')],
+        kani=[],
+        cex={'name_wire.skip_compressed_name': [('name_wire', 'cex_skip_len_le_buf')]},
+        unverified=['Rdata::read body (assumed contract here; see C18)', 'fmt::Debug impl of Reader (calls the verified accessors)'],
+        assumptions=['slice lengths are <= isize::MAX'],
+    ),
 }
